@@ -18,6 +18,7 @@ use crate::world::*;
 
 pub const OWNER: &str = "owner";
 pub const COLLECTOR: &str = "collector";
+pub const COLLECTOR2: &str = "collectorb";
 pub const USERS: [&str; 5] = ["alice", "bobby", "carol", "david", "erin0"];
 const MIN_RAMP_BLOCKS: u64 = 10_000;
 
@@ -60,6 +61,8 @@ pub enum Op {
     RoundTrip { from: usize, to: usize, amount: u128 },
     DepositWithdraw { amounts: [u128; 3] },
     SetFees { fees: [String; 3] },
+    /// the operator re-points the pool's fee collector address
+    SetCollector { second: bool },
     /// hostile: WithdrawLiquidity {} called directly with a native coin attached
     WithdrawDirect { coin: usize, amount: u128 },
 }
@@ -97,6 +100,7 @@ pub struct Pool3 {
     pub fee18: [u128; 3],
     pub blocks: u64,
     pub model: Model,
+    pub collector_now: String,
     pub perm_next: std::cell::Cell<u8>,
     /// scripted steps to emit before anything else
     pub queue: Vec<Step>,
@@ -111,6 +115,8 @@ pub struct Obs {
     pub burned: [u128; 3],
     pub bal: [u128; 3],
     pub collector: [u128; 3],
+    /// the collector address the pool is NOT configured with
+    pub other_collector: [u128; 3],
     pub users: Vec<[u128; 3]>,
     pub users_lp: Vec<u128>,
     pub lp_pool: u128,
@@ -396,7 +402,8 @@ impl Pool3 {
             all_time: [pick(&fa.fees, 0), pick(&fa.fees, 1), pick(&fa.fees, 2)],
             burned: [pick(&fb.fees, 0), pick(&fb.fees, 1), pick(&fb.fees, 2)],
             bal: three(&self.trio),
-            collector: three(COLLECTOR),
+            collector: three(&self.collector_now),
+            other_collector: three(if self.collector_now == COLLECTOR { COLLECTOR2 } else { COLLECTOR }),
             users: (0..n).map(|i| three(USERS[i])).collect(),
             users_lp: (0..n).map(|i| balance(&self.app, USERS[i], &lpi)).collect(),
             lp_pool: balance(&self.app, &self.trio, &lpi),
@@ -515,6 +522,7 @@ impl Scenario for Pool3 {
             perm_next: std::cell::Cell::new(0),
             queue: vec![],
             model: Model { amp0: cfg.amp, amp1: cfg.amp, h0: h, h1: h, ..Default::default() },
+            collector_now: COLLECTOR.to_string(),
         }
     }
 
@@ -635,9 +643,10 @@ impl Scenario for Pool3 {
                 let d0 = rng.edge_amount(bal[0] / 2).max(1);
                 Op::DepositWithdraw { amounts: [d0, muldiv128(d0, o.reserves[1], o.reserves[0].max(1)).unwrap_or(1).min(bal[1]).max(1), muldiv128(d0, o.reserves[2], o.reserves[0].max(1)).unwrap_or(1).min(bal[2]).max(1)] }
             }
+            _ if rng.chance(1, 4) => Op::SetCollector { second: rng.chance(1, 2) },
             _ => Op::SetFees { fees: gen_fees(rng) },
         };
-        let fault = match op { Op::Ramp { .. } | Op::RoundTrip { .. } | Op::DepositWithdraw { .. } | Op::SetFees { .. } => Fault::None, _ => fault };
+        let fault = match op { Op::Ramp { .. } | Op::RoundTrip { .. } | Op::DepositWithdraw { .. } | Op::SetFees { .. } | Op::SetCollector { .. } => Fault::None, _ => fault };
         Some(Step { actor, op, adv, fault })
     }
 
@@ -703,6 +712,9 @@ fn global_invariants(s: &mut Pool3, ctx: &mut Ctx, before: &Obs, after: &Obs, ok
     }
     if !ok && (obs_key(before) != obs_key(after) || before.supply != after.supply || before.bal != after.bal) {
         ctx.fail("C04", "failed_tx_no_effect", opname, None, format!("{opname}: state changed by a failed tx"));
+    }
+    if opname != "set_collector" && before.other_collector != after.other_collector {
+        ctx.fail("C07", "nothing_else_moves", "unconfigured_collector_paid", None, format!("{opname}: the balances of a collector address the pool is not configured with changed {:?} -> {:?}", before.other_collector, after.other_collector));
     }
 }
 
@@ -1190,6 +1202,29 @@ pub fn apply(s: &mut Pool3, step: &Step, ctx: &mut Ctx) {
             let after = match s.observe() { Ok(o) => o, Err(_) => return };
             ctx.trace(&format!("set_fees:{}", r.outcome.kind()));
             global_invariants(s, ctx, &before, &after, r.outcome.is_ok(), "set_fees");
+        }
+        Op::SetCollector { second } => {
+            let before = match s.observe() { Ok(o) => o, Err(_) => return };
+            let target = if *second { COLLECTOR2 } else { COLLECTOR };
+            let msg = wasm_exec(&s.factory, &factory::ExecuteMsg::UpdateTrioConfig { trio_addr: s.trio.clone(), owner: None, fee_collector_addr: Some(target.to_string()), pool_fees: None, feature_toggle: None, amp_factor: None }, vec![]);
+            let r = tx(&mut s.app, OWNER, vec![msg], Fault::None);
+            ctx.op("set_collector", r.outcome.kind());
+            ctx.trace(&format!("set_collector:{target}:{}", r.outcome.kind()));
+            let prev = s.collector_now.clone();
+            if r.outcome.is_ok() {
+                s.collector_now = target.to_string();
+                ctx.probe("collector_repointed");
+            }
+            let after = match s.observe() { Ok(o) => o, Err(_) => return };
+            let (c_after, o_after) = if prev == s.collector_now { (after.collector, after.other_collector) } else { (after.other_collector, after.collector) };
+            ctx.eval("C07");
+            if c_after != before.collector || o_after != before.other_collector || after.bal != before.bal || after.pending != before.pending || after.reserves != before.reserves {
+                ctx.fail("C07", "nothing_else_moves", "set_collector_moved_funds", None, format!("re-pointing the fee collector changed balances or ledgers: pending {:?} -> {:?}, pool {:?} -> {:?}", before.pending, after.pending, before.bal, after.bal));
+            }
+            if !r.outcome.is_ok() {
+                ctx.fail("C07", "collector_update", "owner_update_refused", None, format!("the owner's fee collector update failed: {}", r.outcome.err_text()));
+            }
+            global_invariants(s, ctx, &before, &after, r.outcome.is_ok(), "set_collector");
         }
         Op::Ramp { future_a, future_block } => {
             let before = match s.observe() { Ok(o) => o, Err(_) => return };
